@@ -645,5 +645,37 @@ func ruleStreamNeverSilent(c *Ctx) {
 		c.Check(ok, "handleJSON:return#"+itoa(i), hj, r, "an early return of handleJSON (unreadable or undecodable body) happens after c.fail, or because the caller's context ended: the call the body belonged to is never left pending")
 	}
 	c.Pin("handleJSON early returns", nj, 2)
+	// ... and both failures are looked at: behind a failed read or a failed decode nothing is handed to the session
+	// (a nil message would be dropped by the reader and the call would wait for ever)
+	incomingF := c.Field(pM, "streamableClientConn", "incoming")
+	var sends []int
+	ast.Inspect(hj.Body, func(n ast.Node) bool {
+		if ss, ok := n.(*ast.SendStmt); ok && hj.IsField(ss.Chan, incomingF) {
+			sends = append(sends, jg.VertexOf(ss))
+		}
+		return true
+	})
+	c.Pin("handleJSON hand-offs", len(sends), 1)
+	nTested := 0
+	for _, call := range hj.AllCalls(hj.Body, false) {
+		fn := hj.Callee(call)
+		if fn == nil || (fn.Name() != "ReadAll" && fn.Name() != "DecodeMessage") {
+			continue
+		}
+		nTested++
+		edges := hj.failureEdges(call)
+		okT := len(edges) > 0
+		for _, e := range edges {
+			seen, _ := jg.reach([]int{e}, nil, nil)
+			seen[e] = true
+			for _, sv := range sends {
+				if seen[sv] {
+					okT = false
+				}
+			}
+		}
+		c.Check(okT, "handleJSON:"+fn.Name()+"-failure-stops-the-hand-off", hj, call, "the error of %s is tested and its failure branch never reaches the hand-off to the session", fn.Name())
+	}
+	c.Pin("handleJSON fallible steps", nTested, 2)
 
 }
